@@ -314,18 +314,18 @@ def plan(tier, seed):
     if tier == "quick":
         pre += ["rot % 3 == 0 or (perm == 0 and noise == 0)", "perm % 4 == 0 or (rot == 0 and tr == 0)", "noise == 0 or (tr == 0 and rot in (0, 7) and perm in (0, 5))"]
     else:
-        pre += ["rot % 2 == 0 or perm % 3 == 0", "noise < 4 or (tr == 0 and rot % 6 == 1)"]
+        pre += ["rot % 3 == 0 or (perm % 6 == 0 and rot % 2 == 0)", "noise < 4 or (tr == 0 and rot % 6 == 1)", "tr < 2 or perm % 2 == 0"]
     units.append(Sel(name="from_geometry", func="vp.props.C07:graph_body" if tier == "quick" else "vp.props.C07:graph_body_t", params=params, pre=pre,
                      shard_by=["m"], timeout=1500, nontrivial="rot > 0 or perm > 0"))
     rp = {"rot_r": (0, 24), "rot_p": (0, 24), "rot_t": (0, 24), "tr": (0, 3), "perm": (0, 6)}
-    rpre = ["rot_r % 6 == 0 and rot_p % 5 == 0 and rot_t % 7 == 0"] if tier == "quick" else ["rot_r % 2 == 0 and rot_p % 3 == 0 and rot_t % 4 == 1"]
+    rpre = ["rot_r % 6 == 0 and rot_p % 5 == 0 and rot_t % 7 == 0"] if tier == "quick" else ["rot_r % 3 == 0 and rot_p % 4 == 0 and rot_t % 4 == 1"]
     units.append(Sel(name="from_geometries", func="vp.props.C07:reaction_body", params=rp, pre=rpre, shard_by=[], timeout=1500))
     units.append(Sel(name="from_geometry_chains", func="vp.props.C07:chain_body",
                      params={"ni": (0, len(CHAIN_SIZES)), "rot": (0, 24), "tr": (0, 3), "order": (0, 3 if tier == "quick" else 8)},
                      pre=["rot % 6 == 1"] if tier == "quick" else ["rot % 2 == 1"], shard_by=[], timeout=1500, nontrivial="order > 0"))
     units.append(Sel(name="from_geometries_methyl", func="vp.props.C07:methyl_body",
                      params={"rot_r": (0, 24), "rot_t": (0, 24), "tr": (0, 3), "perm": (0, 24 if tier == "quick" else 60)},
-                     pre=["rot_r % 8 == 0 and rot_t % 6 == 1 and tr < 2"] if tier == "quick" else ["rot_r % 4 == 0 and rot_t % 3 == 1"], shard_by=[], timeout=1500,
+                     pre=["rot_r % 8 == 0 and rot_t % 6 == 1 and tr < 2"] if tier == "quick" else ["rot_r % 6 == 0 and rot_t % 4 == 1"], shard_by=[], timeout=1500,
                      nontrivial="perm > 0"))
     return units
 
